@@ -27,7 +27,9 @@ FUNCTIONS = ["file_accessor.FileAccessor.store_file/store_chunk/fetch_file/fetch
              "http_accessor.HttpAccessor.fetch_file/fetch_chunk/file_exists and sharded_http_accessor.ShardedHttpAccessor.fetch_chunk under request faults"]
 STUBS = ["model file system with a fault plan: call #n of the operation fails with errno e / the process is interrupted before "
          "call #n, after which any prefix of what open writers had written survives (symbolic prefix length)",
-         "gzip image model: an unfinished image raises EOFError when read (as the real module does for a truncated stream)"]
+         "gzip image model: an unfinished image raises EOFError when read (as the real module does for a truncated stream)",
+         "model static-file server behind a requests.Session stand-in, with a request fault plan (replays use a real "
+         "http.server on the loopback interface with the same plan)"]
 ASSUMPTIONS = ["a failed or interrupted system call has no effect other than the partial content of files open for writing",
                "appending to an existing shard file in a later session is not supported by the tool and not exercised"]
 EXPLANATION = ("Every file-system call an operation makes is a fault site: the solver-driven case split selects the failing call "
